@@ -37,41 +37,73 @@ def run(ctx):
             raise AnchorMissing('DenseNatMap FromIterator<(K, V)>::from_iter (found %d)' % len(bs))
         b = bs[0]
         ctx.touched(b)
-        sorts = [c for c in b.calls if re.search(r'::sort\w*$', c.short)]
-        cols = b.calls_to('Iterator::collect')
+        # read in normal form (A12; a new helper such as `dense_values(sorted_pairs)` is spliced in): ONE sort, a
+        # stable one, by the pair's key; after it a pass over the sorted pairs that compares each key with its
+        # position (the enumerate index, or the length of the output built so far) and diverges on a mismatch
+        from common import comparisons
+        from taint import origins
+        nb = F.norm(b)
+        bodies_ = bodies_with_closures(F, nb)
+        sorts = [c for c in nb.calls if re.search(r'::sort\w*$', c.short)]
         stable = [c for c in sorts if 'unstable' not in c.short]
-        ok = len(stable) == 1 and len(sorts) == 1 and len(cols) == 2 and b.dominates(stable[0].bb, cols[-1].bb) \
-            and b.dominates(cols[0].bb, stable[0].bb)
-        ctx.check(ok, 'C20-R1', 'sorted-before-position-check', b,
+        checks = []      # (test block, mismatch edges, body)
+        for x in bodies_:
+            for (p_, q_, rel, te, fe, bb) in comparisons(x):
+                if rel not in ('eq', 'ne'):
+                    continue
+                mis = te if rel == 'ne' else fe
+                r_ = x.reach([e[1] for e in mis]) if mis else set()
+                if mis and not any(y in r_ for y in x.returns):
+                    checks.append((bb, mis, x, p_, q_))
+        in_order = len(stable) == 1 and len(sorts) == 1 and any(
+            x is nb and nb.dominates(stable[0].bb, bb) and nb.in_cycle(bb) for (bb, mis, x, p_, q_) in checks)
+        if not in_order and len(stable) == 1 and len(sorts) == 1:
+            # the check may sit in a closure that runs after the sort (`.map(|(i, (k, v))| { if i != k {panic} v })`)
+            for (bb, mis, x, p_, q_) in checks:
+                if x is not nb:
+                    try:
+                        parent, pbb, st_ = F.closure_creation(x)
+                    except AnchorMissing:
+                        continue
+                    if parent.path == nb.path or parent is b:
+                        in_order = True
+        ctx.check(in_order, 'C20-R1', 'sorted-before-position-check', b,
                   good='pairs are collected, sorted by key, and only then checked against their position',
                   bad='DenseNatMap::from_iter<(K, V)> does not sort the pairs by key before the position check: '
                       'construction depends on the order of the pairs')
         # the sort key is the pair's key
         okk = False
         for c in stable:
-            cv = b.val(c.args[1]) if len(c.args) > 1 else None
+            cv = nb.val(c.args[1]) if len(c.args) > 1 else None
             cl = F.bodies.get(cv.key[1]) if cv is not None and cv.kind == 'agg' and cv.key[0] == 'closure' else None
             if cl is not None:
-                for (i, si, st) in cl.assigns(lambda st: st['lhs']['l'] == 0 and not st['lhs']['p']):
+                for (i_, si, st) in cl.assigns(lambda st: st['lhs']['l'] == 0 and not st['lhs']['p']):
                     v = noref(cl.val(st['rv']['op'])) if st['rv']['k'] == 'use' else None
                     if v is not None and v.kind == 'arg' and v.fields() == ('.0',):
                         okk = True
         ctx.check(okk, 'C20-R1', 'sort-key-is-key', b, good='the sort key is the pair\'s key',
                   bad='DenseNatMap::from_iter<(K, V)> sorts by something other than the key')
-        # the checking closure diverges on mismatch
-        chk = None
-        for cl in F.closures_under(b):
-            for sw in cl.switches:
-                if sw.on.kind == 'bin' and sw.on.key[0] in ('Ne', 'Eq'):
-                    chk = (cl, sw)
-        ok = False
-        if chk:
-            cl, sw = chk
-            mis = sw.edges_for(True) if sw.on.key[0] == 'Ne' else sw.edges_for(False)
-            r = cl.reach([e[1] for e in mis])
-            ok = bool(mis) and not any(x in r for x in cl.returns)
-            ops = [noref(o) for o in sw.on.key[1:]]
-            ok = ok and all(o.kind == 'arg' for o in ops) and len(set(repr(o) for o in ops)) == 2
+        # the check compares a key with a position, and a mismatch diverges
+        def is_key(x, v):
+            v = noref(v)
+            if v.kind == 'arg' and '.0' in v.fields():
+                return True
+            if v.kind == 'call':
+                cc = x.call_at(v.key)
+                return cc is not None and (cc.is_('Iterator::next') and v.fields()[-1:] == ('.0',) or 'From' in cc.callee)
+            if v.kind == 'local':
+                from taint import vals_of
+                vs = vals_of(x, v)
+                return bool(vs) and all(y.kind != 'local' and is_key(x, y) for y in vs)
+            return False
+
+        def is_pos(x, v):
+            v = noref(v)
+            if v.kind == 'arg':
+                return True
+            cc = x.call_at(v.key) if v.kind == 'call' else None
+            return cc is not None and (cc.is_('Vec::len') or cc.is_('Iterator::next'))
+        ok = any((is_key(x, p_) and is_pos(x, q_)) or (is_key(x, q_) and is_pos(x, p_)) for (bb, mis, x, p_, q_) in checks)
         ctx.check(ok, 'C20-R1', 'gap-rejected', b,
                   good='a key that differs from its position (gap or duplicate) panics',
                   bad='DenseNatMap::from_iter<(K, V)> accepts a key that differs from its position: gaps or '
@@ -91,17 +123,20 @@ def run(ctx):
         gt = edges_where(b, is_idx, is_len, 'gt')
         eq = edges_where(b, is_idx, is_len, 'eq')
         below = edges_where(b, is_idx, is_len, 'lt') + edges_where(b, is_idx, is_len, 'ne')
-        ok = bool(gt)
-        if ok:
-            r = b.reach([e[1] for e in gt])
-            ok = not any(x in r for x in b.returns)
+        le = edges_where(b, is_idx, is_len, 'le')
+        # "index > len" may be established by one test or be what is left after `<` and `==` were ruled out: with
+        # every edge that establishes <, == or <= removed, no return (and no push / swap) is reachable
+        r_gt = b.reach([0], cut_edges=below + eq + le)
+        ok = bool(gt or (below and eq)) and not any(x in r_gt for x in b.returns) and \
+            not any(c.bb in r_gt for c in b.calls_to('Vec::push', 'mem::swap', 'mem::replace'))
         ctx.check(ok, 'C20-R2', 'insert-beyond-len-panics', b,
                   good='insert with index > len panics',
                   bad='DenseNatMap::insert does not reject an index beyond len: the map would get a gap')
         pushes = b.calls_to('Vec::push')
         swaps = b.calls_to('mem::swap', 'mem::replace')
+        # the push happens only under index == len, the swap only under index < len (or != after > was excluded)
         ok = bool(eq) and bool(below) and len(pushes) == 1 and len(swaps) == 1 and \
-            b.edges_dominate(eq, pushes[0].bb) and b.edges_dominate(below, swaps[0].bb)
+            pushes[0].bb not in b.reach([0], cut_edges=eq) and swaps[0].bb not in b.reach([0], cut_edges=below)
         ctx.check(ok, 'C20-R2', 'insert-appends-or-swaps', b,
                   good='index == len appends, index < len swaps the value in place',
                   bad='DenseNatMap::insert does not append exactly at len and swap below it')
@@ -148,6 +183,18 @@ def run(ctx):
                   good='VectorClock::hash feeds one length-prefixed slice to the hasher on every path',
                   bad='VectorClock::hash does not feed exactly one length-prefixed slice on every path')
         src = noref(body.trace(body.val(feeds[0].args[0]), ('Index::index', 'Deref::deref'))) if feeds else None
+        if src is not None and src.kind == 'local' and feeds[0].args[0].get('k') in ('copy', 'move'):
+            # the hashed slice may be narrowed in a loop (`while let [rest @ .., 0] = s { s = rest }`): every value it
+            # can stand for is (a part of) the components
+            from taint import origin_vals
+            leaves = set()
+            for v in origin_vals(body, feeds[0].args[0]):
+                v = noref(body.trace(noref(v), ('Index::index', 'Deref::deref', 'Vec::as_slice', 'AsRef::as_ref')))
+                if v.kind == 'local' and v.key == src.key:
+                    continue          # itself, narrowed
+                leaves.add((v.kind, v.key, tuple(f for f in v.fields() if not f.startswith('['))))
+            if leaves == {('arg', 1, ('.0',))}:
+                src = V('arg', 1, ('.0',))
         ctx.check(src is not None and src.fields()[-1:] == ('.0',) and src.key == 1, 'C20-R4', 'hash-of-components', body,
                   good='the hashed slice is a prefix of the clock\'s components',
                   bad='VectorClock::hash does not hash the clock components')
